@@ -13,6 +13,14 @@ for d in sorted(os.listdir(sd)):
     own = chk.get(m["property"], {})
     sigs = [l.split("signature:")[1].strip() for l in own.get("lines", []) if "signature:" in l]
     others = ["%s rc=%s" % (k, v.get("rc")) for k, v in chk.items() if k != m["property"]]
+    hist = m.get("history") or []
+    first = None
+    for h in hist:
+        c0 = (h.get("checks") or {}).get(m["property"]) or {}
+        if c0.get("rc") in (0, 2) and first is None:
+            first = "first run rc=%s (missed)" % c0.get("rc")
+    if first:
+        m["note"] = (m.get("note", "") + " " + first + ", caught after strengthening").strip()
     status = m.get("status") or ("caught" if own.get("rc") == 1 else ("inconclusive" if own.get("rc") == 2 else "MISSED"))
     rows.append((d, m["property"], ", ".join(m.get("files", [])), m.get("needs", ""), "yes" if m.get("confirmed") else "NO",
                  status, "; ".join(sigs[:3]) + (" | also: " + ", ".join(others) if others else ""), m.get("note", "")))
